@@ -50,6 +50,7 @@ type emit struct {
 
 func runOnce(c Case) *evid.Failure {
 	env := rawpeer.NewEnv(c.Env)
+	defer env.Close()
 	var probeCount int64
 	env.Stack.AddTCPProbe(func(stack.TCPEndpointState) { atomic.AddInt64(&probeCount, 1) })
 	l, s, p, err := env.Passive(80, 50000, 12345, rawpeer.SynOpts{MSS: c.MSS, WS: 7, TS: c.TS, SACKPerm: c.Env.SACK}, 65535)
